@@ -27,7 +27,7 @@ def _modules(case):
     from pytorch_wavelets import (DWT1DForward, DWT1DInverse, DWTForward,
                                   DWTInverse)
     msp = case.get('mode_spelling', case['mode'])
-    sib = dwtu.sibling(case['wave']) if (case.get('reused') and not case.get('wave_row')) else None
+    sib = dwtu.sibling(case['wave']) if (case.get('reused') and not case.get('wave_row') and case['mode'] != 'reflect') else None
     if sib is not None:
         # both modules had a previous life with a sibling wavelet of the same length
         fcls, icls = (DWT1DForward, DWT1DInverse) if case['dim'] == 1 else (DWTForward, DWTInverse)
